@@ -136,7 +136,7 @@ class StmtMixin:
         if isinstance(target, ast.Attribute):
             base = self.eval(frame, target.value)
             if isinstance(base, Obj):
-                self.note_write(base, target.attr)
+                self.check_not_shared(base, self.where(frame, target))
                 base.attrs[target.attr] = v
                 return
         raise Unsupported("assignment target %s at %s" % (type(target).__name__, self.where(frame, target)))
@@ -157,6 +157,7 @@ class StmtMixin:
 
     def store_index(self, base, idx, v, w):
         ops = self.ops
+        self.check_not_shared(base, w)
         if isinstance(base, dict):
             if is_z3(idx):
                 raise Unsupported("symbolic dict key")
